@@ -61,6 +61,8 @@ def gen_cases(tier, seed):
         ua, ub = systems[0], systems[1 + k % (len(systems) - 1)]
         if k % 3 == 2:
             ua = systems[int(rng.integers(1, len(systems)))]
+        if nt and (k // 4) % 2 == 0:
+            ub = [("mm", "T", "mA"), ("mm", "uT", "nA")][(k // 2) % 2]  # terminals stated in mm (any bare number taken as a length is off by 1e3 / 1e6)
         case = {"layer": "L2", "device": dev, "options": o, "drive": drive, "units_a": list(ua), "units_b": list(ub), "cost": 60 if scr else 15}
         if (k % 4 == 2 and (k // 4) % 2 == 0) or (k % 4 == 1 and (k // 4) % 2 == 1):
             # both statements of the problem are moved in place (same physical displacement) after meshing, before the run
@@ -232,8 +234,19 @@ def _l2(spec):
         W["vector_potential_at_position"] = r / gate
         if r > gate:
             V.append({"kind": "physical_vector_potential_depends_on_units", "mechanism": "physical_output_depends_on_units", "detail": {"rel": r, "units": [ua, ub]}})
+        Ka0 = np.array(sa.current_density.to("A / m").magnitude, copy=True)
+        Kb0 = np.array(sb.current_density.to("A / m").magnitude, copy=True)
         Ba = np.asarray(sa.field_at_position(P_um * LSC[ua[0]], units="T", with_units=False))
         Bb = np.asarray(sb.field_at_position(P_um * LSC[ub[0]], units="T", with_units=False))
+        # asking for the field is an observation: the same question again gives the same answer, the currents are what they were
+        C["physical_output_checks"] += 1
+        for nm_, sx, B1, K0_, uu in (("a", sa, Ba, Ka0, ua), ("b", sb, Bb, Kb0, ub)):
+            B2 = np.asarray(sx.field_at_position(P_um * LSC[uu[0]], units="T", with_units=False))
+            K1 = np.asarray(sx.current_density.to("A / m").magnitude)
+            if not np.array_equal(B1, B2) or not np.array_equal(K0_, K1):
+                V.append({"kind": "field_evaluation_changes_the_solution", "mechanism": "physical_output_depends_on_units",
+                          "detail": {"units": uu, "field_repeat_rel": float(np.max(np.abs(B2 - B1)) / (np.max(np.abs(B1)) + 1e-300)),
+                                     "current_density_rel": float(np.max(np.abs(K1 - K0_)) / (np.max(np.abs(K0_)) + 1e-300))}})
         r = float(np.max(np.abs(Ba - Bb))) / max(float(np.max(np.abs(Ba))), 1e-300)
         C["physical_output_checks"] += 1
         if r > gate:
